@@ -68,6 +68,7 @@ type Exec struct {
 	newWork   []workItem
 	events    []pathEvent
 	reachedEnd bool
+	kfExcluded bool
 
 	// models of the environment
 	ts         *threadState
